@@ -40,9 +40,15 @@ func (g *Generator) handleSelectorExpr(paramType *ast.SelectorExpr, name *ast.Id
 	pkgPath := obj.Pkg().Path()
 	if pkgPath == "context" && obj.Name() == "Context" {
 		g.data.CtxParamMap[methodName] = name.Name
-	} else {
+	} else if _, isStruct := named.Underlying().(*types.Struct); isStruct {
 		g.setBodyParamName(methodName, name.Name)
 		g.handleStruct(paramType, paramType.Sel.Name, name, methodName)
+	} else {
+		// a qualified non-struct type (time.Duration, ...) is an ordinary scalar: path or query parameter
+		if shoot.Contains(g.data.PathParamsMap[methodName], name.Name) {
+			return
+		}
+		g.data.QueryParamsMap[methodName] = append(g.data.QueryParamsMap[methodName], name.Name)
 	}
 }
 
